@@ -471,3 +471,118 @@ def handle_c09_recs(res, recs, mine, vecs):
             res.violation(abort_key(r), dict(r, block=(r.get("block") or [])[:3]))
         elif r.get("k") == "parse" and (r.get("calls") or False):
             res.cov["distinct_nontrivial"] += 1
+
+
+# ------------------------------------------------------------------ C19 (containers)
+def cont_cfg(which, univ, hashop, sizes, chunks, maxops, invariants=(), view=False):
+    return """SPECIFICATION Spec
+CONSTANTS
+  Univ = {%s}
+  HashOf <- %s
+  InitSizes = {%s}
+  Chunks = {%s}
+  MaxOps = %d
+  Which = "%s"
+%s%sCHECK_DEADLOCK FALSE
+""" % (",".join(map(str, univ)), hashop, ",".join(map(str, sizes)), ",".join(map(str, chunks)), maxops, which,
+       ("INVARIANTS " + " ".join(invariants) + "\n") if invariants else "", "VIEW View\n" if view else "")
+
+
+HASHFN = {"HashId": lambda e: e, "HashColl": lambda e: (e % 2) * 7 + 3, "HashSpread": lambda e: e * 37 + 11}
+
+
+def cont_block(bid, which, hashop, univ, hist):
+    hx = lambda s: "".join("%02x" % b for b in s)
+    lines = ["G " + bid, "B " + bid]
+    if which == "hash":
+        for e in univ:
+            lines.append("H %d %d" % (e, HASHFN[hashop](e)))
+    for e in hist:
+        op = e["op"]
+        if op == "hcreate":
+            lines.append("hcreate %d" % e["size"])
+        elif op in ("hinsert", "hfind"):
+            lines.append("%s %d %d" % (op, e["e"], 1 if e["was"] else 0))
+        elif op == "hremove":
+            lines.append("hremove %d" % e["e"])
+        elif op == "hempty":
+            lines.append("hempty")
+        elif op in ("ocreate", "vcreate"):
+            lines.append("%s %d" % (op, e["size"]))
+        elif op in ("oaddmem", "oexpand", "oaddbyte", "oaddstring", "vaddmem", "vexpand", "vaddbyte", "vaddstring"):
+            lines.append("%s %d %d" % (op, e["n"], e["b"]))
+        elif op in ("oshorten", "vshorten"):
+            lines.append("%s %d" % (op, e["n"]))
+        elif op in ("onullify", "ofinish", "oempty", "vnullify", "vtailor"):
+            lines.append(op)
+        if "obs" in e:
+            o = e["obs"]
+            lines.append("obs %d %d %s" % (o["size"], o["count"], ",".join(map(str, o["present"]))))
+        if "top" in e:
+            lines.append("otop " + hx(e["top"]))
+            lines.append("onfin %d" % e["nfin"])
+            if "nseg" in e:
+                lines.append("onseg %d" % e["nseg"])
+        if "bytes" in e:
+            lines.append("vbytes " + hx(e["bytes"]))
+    lines.append("x")
+    return lines
+
+
+def check_C19(res, scratch, tier, seed):
+    builds = [build(scratch, "plain", ("yv_cont",)), build(scratch, "asan", ("yv_cont",))]
+    res.cov["trusted_base"] = TB[:2] + ["harness/yv_cont.c (reads back all contents after every operation)", "gcc/clang, ASan+UBSan as observers"]
+    res.cov["rule"] = ("spec/Cont.tla holds abstract contents and representation of the three containers; TLC checks exhaustively (all operation sequences up to "
+                       "the depth, representation states merged by a VIEW) that the representation denotes the contents (hash: slots vs set, exact lookups, counts, "
+                       "terminating probes under colliding/identity/spread hash functions; stack: finished objects never change, top fits; vlo: bytes fit), and prints "
+                       "simulated behaviours with the expected observation after every operation; yv_cont executes them on the C functions/macros and the C++ classes "
+                       "(plain + ASan), reading back every universe element, all bytes, every finished object's address and bytes, sizes and segment counts; "
+                       "non-trivial = behaviours with at least one expansion, removal or finished object")
+    univ = [1, 2, 3, 4, 5, 6]
+    depth_bfs = 7 if tier == "quick" else 9
+    nsim = 40 if tier == "quick" else 400
+    depth_sim = 30 if tier == "quick" else 60
+    configs = []
+    for hashop in ("HashColl", "HashId", "HashSpread"):
+        configs.append(("hash", hashop, [0, 1, 5], [1], ["HashAbs", "HashNoDup", "HashFindExact", "HashCount", "HashSearchTerminates"]))
+    configs.append(("os", "HashId", [0, 8, 16], [1, 7, 20, 600], ["OsFits"]))
+    configs.append(("vlo", "HashId", [0, 1, 8], [1, 7, 20, 600], ["VloFits"]))
+    blocks = []
+    nontriv = 0
+    for which, hashop, sizes, chunks, invs in configs:
+        tag = "%s_%s" % (which, hashop)
+        # (D) exhaustive
+        t = run_tlc(scratch, "Cont", cont_cfg(which, univ[:5], hashop, sizes, chunks if which == "hash" else chunks[:3], depth_bfs if which == "hash" else depth_bfs - 2, invs, view=True), tag + "_bfs", timeout=1500)
+        if t["status"] == "violation":
+            res.violation("spec-invariant:Cont:" + tag, {"tlc_tail": t["tail"][-2500:]})
+        elif t["status"] != "ok":
+            raise Infra("TLC Cont %s: %s\n%s" % (tag, t["status"], t["tail"][-3000:]))
+        res.add_tlc(t)
+        # (V) simulated behaviours
+        t = run_tlc(scratch, "Cont", cont_cfg(which, univ, hashop, sizes, chunks, depth_sim), tag + "_sim", simulate=nsim, depth=depth_sim + 3,
+                    timeout=1500, extra=("-seed", str(seed)))
+        k = 0
+        for v in tlc_vectors(t["out"]):
+            if "hist" not in v:
+                continue
+            b = cont_block("%s%d" % (tag, k), which, hashop, univ, v["hist"])
+            blocks.append(b)
+            k += 1
+            if any(e["op"] in ("hremove", "ofinish", "vtailor") for e in v["hist"]):
+                nontriv += 1
+            if k == 1:
+                res.cov["samples"].append({"behaviour": b[:40]})
+        if k == 0:
+            raise Infra("no behaviours from TLC for %s\n%s" % (tag, t["tail"][-1500:]))
+    res.cov["distinct_nontrivial"] = nontriv
+    for bdir in builds:
+        for suffix in ("", "xx"):
+            recs, st = run_harness(os.path.join(bdir, "yv_cont" + suffix), blocks)
+            for r in recs:
+                if r.get("k") == "summary":
+                    res.cov["evaluations"] += r.get("ops", 0)
+                elif r.get("k") == "mismatch":
+                    res.violation("C19|" + r["what"], dict(r, build=os.path.basename(bdir), behaviour=next((b for b in blocks if b[0] == "G " + r["g"]), None)))
+                elif r.get("e") == "Abort":
+                    res.violation(abort_key(r), dict(r, build=os.path.basename(bdir), block=(r.get("block") or [])[:60]))
+            res.cov["traces_validated_against_impl"] += len(blocks)
